@@ -685,13 +685,14 @@ Section WithHash.
 
   (* failure injection used by the tie: the plural ids of the current plan are bound to a foreign
      shell before settling, so the shell append (the last fallible step) fails *)
-  Definition prebind (w : world) (sid : N) (pol : policy) (digest : N) : world * bool :=
+  Definition prebind (w : world) (sid : N) (pol : policy) : world * bool :=
     match plan w sid pol with
     | Ok pl =>
         match plural_ids (pl_decisions pl) with
         | [] => (w, false)
         | ids =>
-            match append_shell (snd w) (mkShell digest (pl_target pl) 0 171 (pl_base pl) [3] ids []) with
+            match append_shell (snd w) (mkShell (Hshell (pl_target pl) 0 171 (pl_base pl) [3] ids [])
+                                                (pl_target pl) 0 171 (pl_base pl) [3] ids []) with
             | Ok pv => ((fst w, pv), true)
             | Err _ => (w, false)
             end
@@ -785,7 +786,7 @@ Section WithHash.
         | Err e => (w, OPlanErr (err_obs e))
         end
     | SSettle sid pol inject =>
-        let w0 := if inject then fst (prebind w sid pol 0) else w in
+        let w0 := if inject then fst (prebind w sid pol) else w in
         match settle w0 sid pol with
         | (w1, Ok out) =>
             let target := pl_target (so_plan out) in
